@@ -43,6 +43,8 @@ impl<TR: ToTokens> FnDelegationCodegen<'_, TR> {
     /// ```
     ///
     pub fn gen_impl_block(&self, trait_fns: &[TraitFn]) -> TokenStream {
+        #[cfg(entrait_verif)]
+        crate::verif::point("fn_delegation_codegen::gen_impl_block", trait_fns.len());
         let params = self.trait_generics.impl_params(
             self.trait_dependency_mode,
             generics::has_any_self_by_value(trait_fns.iter().map(|trait_fn| trait_fn.sig())),
